@@ -491,24 +491,9 @@ Fixpoint lookup (r : env) (x : string) : option value :=
   end.
 
 (* bytecodegen.rs `mir::Instruction::Float(n)`: a float constant is loaded as a half-precision immediate
-   (MoveImmF) whenever `HFloat::try_from(n)` succeeds, i.e. |f16(n) - n| < ALLOWED_ERROR = 0.00001
-   (utils/half_float.rs); otherwise from the constant table (exact). *)
-Definition f16_prec : Z := 11.
-Definition f16_emax : Z := 16.
-Definition to_f64 (q : num) : num :=       (* f16::to_f64: exact *)
-  match q with
-  | S754_finite s m e => binary_normalize f64_prec f64_emax (cond_Zopp s (Zpos m)) e s
-  | _ => q
-  end.
-Definition f16_of (q : num) : num :=       (* f16::from_f64 (round to nearest even), read back as f64 *)
-  match q with
-  | S754_finite s m e => to_f64 (binary_normalize f16_prec f16_emax (cond_Zopp s (Zpos m)) e s)
-  | _ => q
-  end.
-Definition ALLOWED_ERROR : num := S754_finite false 5902958103587057 (-69).   (* 0.00001 *)
-Definition imm_round (q : num) : num :=
-  let hv := f16_of q in
-  if SFltb (SFabs (SFsub f64_prec f64_emax hv q)) ALLOWED_ERROR then hv else q.
+   (MoveImmF) only when `HFloat::try_from(n)` succeeds, i.e. when f16 represents n EXACTLY
+   (utils/half_float.rs, since the repair of finding F19), otherwise from the constant table: in both
+   cases the register holds n itself, so loading a literal is the identity in the model. *)
 
 (* a value without closures (what a combinator may receive) *)
 Fixpoint is_data (v : value) : bool :=
@@ -840,8 +825,7 @@ Definition optM {A B : Type} (f : A -> res B) (o : option A) : res (option B) :=
 
 (* rebuild (interpreter.rs `rebuild`, the reference reading of a quotation): the quoted expression itself
    with every `EEscape s` replaced by the code value that `evs s` (stage-0 evaluation of s) yields.
-   Forms translate_code leaves untranslated are errors.  One deviation from the ideal reading is built in,
-   because the code does it (finding F19): a float literal is the value the stage-0 VM loads for it. *)
+   Forms translate_code leaves untranslated are errors. *)
 Definition rebuild_with (evs : expr -> res value) : expr -> res expr :=
   fix rb (q : expr) {struct q} : res expr :=
     let rbf := mapM (fun f => match f with (nm, x) => do x' <- rb x; Ok (nm, x') end) in
@@ -851,7 +835,6 @@ Definition rebuild_with (evs : expr -> res value) : expr -> res expr :=
     | ELit l =>
         match l with
         | LPlaceHolder => Err Stuck
-        | LFloat x => Ok (ELit (LFloat (imm_round x)))   (* the literal passes through the stage-0 VM (F19) *)
         | _ => Ok q
         end
     | EVar _ | EQualifiedVar _ => Ok q
@@ -894,7 +877,7 @@ Fixpoint ev (n : nat) : env -> expr -> res value :=
     | EEscape _ => Err Stuck
     | ELit l =>
         match l with
-        | LFloat q => Ok (VNum (imm_round q))       (* MoveImmF / MoveConst *)
+        | LFloat q => Ok (VNum q)                   (* MoveImmF (exact) / MoveConst *)
         | LInt z => Ok (VInt z)
         | LString s => Ok (VStr s)
         | LTy t => Ok (VTy t)
